@@ -19,8 +19,8 @@ TECHNIQUE = "exhaustive enumeration of keys x dictionaries x default forms x dom
 RULE = (
     "lookup: keys {A, S.X, S, S.X.Y, L.0, L.1.X} x all dictionaries of a per-key alphabet (every falsy JSON value, "
     "scalars, templated strings to reference depth 3, containers holding templated strings, sections with/without "
-    "siblings, lists, paths through scalars) x 15 default forms x 5 domain forms; namespace: 9 member forms x 4 "
-    "nesting forms x dictionaries, compared on evaluate/validate/keys/explain with the qualified Option; set: keys x "
+    "siblings, lists, paths through scalars) x 17 default forms (incl. escaped-brace-only strings) x 5 domain forms; namespace: 16 member forms x 40 "
+    "nesting chains (every chain of up to 3 sub-namespaces below the top one, each level implicit class / @Option.namespace / @Option.namespace(name)) x dictionaries, compared on evaluate/validate/keys/explain with the qualified Option; set: keys x "
     "12 values x 9 dictionaries.  Non-trivial = (option, dictionary) pairs whose outcome differs from the same "
     "option under the empty dictionary."
 )
@@ -76,6 +76,8 @@ def _defaults():
     D = [None]
     D += [("val", 7)] + [("val", v) for v in FALSY]
     D += [("tmpl", "{B}-d", {}), ("tmpl", "lit", {})]
+    # string defaults whose only braces are escaped, alone and next to a reference
+    D += [("tmpl", "\\{raw\\}", {}), ("tmpl", "\\{B\\}={B}", {})]
     D += [("opt", "B"), ("opt", "B", ("opt", "C")), ("opt", "B", ("opt", "C", ("val", 9)))]
     D += [("ds", "dflt", {"params": [("opt", "B")]})]
     D += ["factory"]
@@ -143,7 +145,17 @@ def _ns_members():
     return M
 
 
-NS_NESTINGS = ["top", "implicit-sub", "explicit-sub-renamed", "two-levels", "explicit-inside-implicit"]
+def _nestings(max_levels=3):
+    """every chain of sub-namespaces below the top one, each level a plain nested class ('imp'), a class
+    decorated with @Option.namespace ('exp') or one decorated with @Option.namespace("<other name>") ('named')"""
+    out = ["top"]
+    for n in range(1, max_levels + 1):
+        for kinds in itertools.product(("imp", "exp", "named"), repeat=n):
+            out.append("/".join(kinds))
+    return out
+
+
+NS_NESTINGS = _nestings()
 
 
 def _build_ns(nesting):
@@ -161,27 +173,31 @@ def _build_ns(nesting):
                 d[name] = v() if callable(v) else copy.deepcopy(v)
         return d
 
-    if nesting == "top":
-        ns = Option.namespace(type("NS", (), body()))
-        path, obj = "NS", ns
-    elif nesting == "implicit-sub":
-        sub = type("SUB", (), body())
-        ns = Option.namespace(type("NS", (), {"SUB": sub}))
-        path, obj = "NS.SUB", ns.SUB
-    elif nesting == "explicit-sub-renamed":
-        sub = Option.namespace("SUB-2")(type("SUB", (), body()))
-        ns = Option.namespace(type("NS", (), {"SUB": sub}))
-        path, obj = "NS.SUB-2", ns.SUB
-    elif nesting == "two-levels":
-        sub2 = type("DEEP", (), body())
-        sub = type("SUB", (), {"DEEP": sub2})
-        ns = Option.namespace(type("NS", (), {"SUB": sub}))
-        path, obj = "NS.SUB.DEEP", ns.SUB.DEEP
-    else:
-        sub2 = Option.namespace(type("DEEP", (), body()))
-        sub = type("SUB", (), {"DEEP": sub2})
-        ns = Option.namespace(type("NS", (), {"SUB": sub}))
-        path, obj = "NS.SUB.DEEP", ns.SUB.DEEP
+    kinds = [] if nesting == "top" else nesting.split("/")
+    content = body()
+    path_keys = []
+    attrs = []
+    # build from the innermost level outwards
+    for lvl in range(len(kinds), 0, -1):
+        kind = kinds[lvl - 1]
+        cname = f"L{lvl}"
+        cls = type(cname, (), content)
+        if kind == "exp":
+            cls = Option.namespace(cls)
+            kname = cname
+        elif kind == "named":
+            kname = f"{cname}-n"
+            cls = Option.namespace(kname)(cls)
+        else:
+            kname = cname
+        path_keys.insert(0, kname)
+        attrs.insert(0, cname)
+        content = {cname: cls}
+    ns = Option.namespace(type("NS", (), content))
+    obj = ns
+    for a in attrs:
+        obj = getattr(obj, a)
+    path = ".".join(["NS"] + path_keys)
     out = {}
     for name, _, q in members:
         out[name] = (f"{path}.{name}", getattr(obj, name), q(f"{path}.{name}"))
